@@ -77,10 +77,10 @@ Definition row_mem (r : row) (l : list row) : bool := existsb (row_eqb r) l.
 Fixpoint rank_desc (l : list row) : bool :=
   match l with
   | [] => true
-  | (_, e, p) :: rest =>
+  | (_, _, p) :: rest =>
       match rest with
       | [] => true
-      | (_, e', p') :: _ => (spec_rank p' <? spec_rank p) || ((spec_rank p' =? spec_rank p) && (e' <? e))
+      | (_, _, p') :: _ => spec_rank p' <=? spec_rank p
       end && rank_desc rest
   end.
 Definition sugg_ok (q sugg : list row) : bool :=
